@@ -369,6 +369,14 @@ def random_cfg(rng, alg=None, family="roomy", nobs=None, maxn=4):
         cfg["advRounds"] = rng.randint(1, 4)
         cfg["advSeed"] = rng.randint(0, 10 ** 6)
         cfg["advProv"] = rng.choice([0, 0, 1, 2])
+    if rng.random() < 0.12:
+        # machine names with a category prefix and per-category numbering
+        # (cat0_m0, cat1_m0, cat0_m1, ...): the whole name is the machine's identity
+        ren = {m["id"]: "cat%d_m%d" % (i % 2, i // 2) for i, m in enumerate(cfg["machines"])}
+        for m in cfg["machines"]:
+            m["id"] = ren[m["id"]]
+        for a in cfg.get("plan", []):
+            a["m"] = ren.get(a["m"], a["m"])
     return normalise(cfg)
 
 
